@@ -13,19 +13,19 @@ import (
 //      scalar encodings (C16) ----
 
 type fieldCase struct {
-	Op string `json:"op"`
-	Cx []int  `json:"cx"` // limb classes of x (4 entries) or nil
-	Cy []int  `json:"cy"`
-	Sx string `json:"sx"` // named special value
-	Sy string `json:"sy"`
-	Rx int    `json:"rx"` // >0: seeded random operand number
-	Ry int    `json:"ry"`
-	E  string `json:"e"` // exponent class for exp
-	N  int    `json:"n"` // batch length
-	Zp int    `json:"zp"` // zero positions bitmask / pattern id for batch
-	Xall bool `json:"xall"` // x ranges over all 7^4 class words
-	Yall bool `json:"yall"` // y too (complete cross product)
-	Diag bool `json:"diag"` // y = x
+	Op   string `json:"op"`
+	Cx   []int  `json:"cx"` // limb classes of x (4 entries) or nil
+	Cy   []int  `json:"cy"`
+	Sx   string `json:"sx"` // named special value
+	Sy   string `json:"sy"`
+	Rx   int    `json:"rx"` // >0: seeded random operand number
+	Ry   int    `json:"ry"`
+	E    string `json:"e"`    // exponent class for exp
+	N    int    `json:"n"`    // batch length
+	Zp   int    `json:"zp"`   // zero positions bitmask / pattern id for batch
+	Xall bool   `json:"xall"` // x ranges over all 7^4 class words
+	Yall bool   `json:"yall"` // y too (complete cross product)
+	Diag bool   `json:"diag"` // y = x
 	// codec
 	Fn  string `json:"fn"`
 	Len int    `json:"len"`
@@ -75,7 +75,7 @@ func specialRaw(name string) *big.Int {
 		"2^128-1": sub(new(big.Int).Lsh(one, 128), one), "2^128": new(big.Int).Lsh(one, 128),
 		"2^192-1": sub(new(big.Int).Lsh(one, 192), one), "2^192": new(big.Int).Lsh(one, 192),
 		"2^252": new(big.Int).Lsh(one, 252),
-		"-R": sub(r, R), "-R-1": sub(sub(r, R), one), "-R+1": add(sub(r, R), one),
+		"-R":    sub(r, R), "-R-1": sub(sub(r, R), one), "-R+1": add(sub(r, R), one),
 	}
 	v, ok := m[name]
 	if !ok {
